@@ -374,3 +374,37 @@ fn c16_offs_bounds_and_size() {
     kani::cover!(len == 1, "witness: singleton slice");
     kani::cover!(d0 < d1, "witness: non-empty dense range");
 }
+
+/// OffsetRange::offsets (a full or timestamp-range scan of a table is a walk over a dense range): visits exactly the
+/// rows start..end, each once, in increasing order.
+#[kani::proof]
+#[kani::unwind(7)]
+fn c16_offs_dense_range_walk() {
+    let d0: u32 = kani::any();
+    let n: u32 = kani::any();
+    kani::assume(d0 < 1000 && n <= 5);
+    let rg = OffsetRange::new(r(d0), r(d0 + n));
+    let x: u32 = kani::any();
+    kani::assume(x < 1010);
+    let mut hits = 0u32;
+    let mut count = 0u32;
+    let mut sorted = true;
+    let mut last: Option<u32> = None;
+    SubsetRef::Dense(rg).offsets(|row| {
+        count += 1;
+        if row.rep() == x {
+            hits += 1;
+        }
+        if let Some(p) = last {
+            if p >= row.rep() {
+                sorted = false;
+            }
+        }
+        last = Some(row.rep());
+    });
+    assert!(count == n, "as many rows as the range is long");
+    assert!(hits == if d0 <= x && x < d0 + n { 1 } else { 0 }, "a row is visited once iff it is in the range");
+    assert!(sorted, "increasing order");
+    kani::cover!(n == 5 && x == d0 + 4, "witness: last row of a 5-row range");
+    kani::cover!(n == 0, "witness: empty range");
+}
